@@ -846,6 +846,7 @@ func gen(g *core.G) {
 	genInterfaces(g)
 	genIface(g)
 	genGoObj(g)
+	genIfaceX(g)
 	chains, perChain, tuples := 300, 4, 5
 	if g.Thorough() {
 		chains, perChain = 10000, 2
